@@ -51,6 +51,8 @@ pub fn build_sym_using_ms<F>(dset: PartialDSet, m: F) -> PartialDSym
 
 
 pub fn canonical<T: DSym>(ds: &T) -> PartialDSym {
+    #[cfg(rust_dsymbols_verif)]
+    crate::verif_hooks::probe("derived::canonical");
     let src2img = minimal_traversal_code(ds).get_map();
 
     let mut img2src = vec![0; ds.size() + 1];
@@ -108,6 +110,8 @@ pub fn cover<T, F>(ds: &T, nr_sheets: usize, sheet_map: F) -> PartialDSym
         T: DSym,
         F: Fn(usize, usize, usize) -> usize
 {
+    #[cfg(rust_dsymbols_verif)]
+    crate::verif_hooks::probe("derived::cover");
     let sz = ds.size();
     let src = |d: usize| (d - 1) % sz + 1;
     let op = |i, d| ds.op(i, src(d))
@@ -152,6 +156,8 @@ pub fn oriented_cover<T: DSym>(ds: &T) -> PartialDSym {
 
 
 pub fn minimal_image<T: DSym>(ds: &T) -> PartialDSym {
+    #[cfg(rust_dsymbols_verif)]
+    crate::verif_hooks::probe("derived::minimal_image");
     if ds.is_minimal() {
         as_partial_dsym(ds)
     } else {
